@@ -38,7 +38,13 @@ def produce(seed, tier, shard, nshards):
                 ("def f(x):\n    match x:\n        case [a, b]:\n            return a\n        case {'k': v}:\n            return v\n    return None\n", 0),
                 ("def f(x):\n    try:\n        return x\n    finally:\n        x = 1\nfor i in y:\n    if i: continue\n    try:\n        break\n    finally:\n        z = 1\n", 0),
                 ("if (n := len(a)) > 1:\n    print(f'{n=}')\n", 0), ("async def f(x):\n    async with x as y, x as z:\n        return [i async for i in y]\n", 0),
-                ("def f():\n    with a as b, c as d:\n        return b\n    x = {**p, 'k': 1}; y = [*q, 2]; z = (*q,)\n", 2)]
+                ("def f():\n    with a as b, c as d:\n        return b\n    x = {**p, 'k': 1}; y = [*q, 2]; z = (*q,)\n", 2),
+                # containers whose members are distinct objects that only identity tells apart (two NaNs in one frozenset /
+                # tuple, NaN-holding tuples in a frozenset), infinities, signed zeros: a consumer that shares one object
+                # for all of them collapses the container (seeded change C15-r4)
+                ("r = x in {1e999 * 0, -(1e999 * 0), 1}\ns = x in {(1e999 * 0, 1), (-(1e999 * 0), 1), 2.5}\n", 0),
+                ("t = (1e999 * 0, -(1e999 * 0), 1e999, -1e999, 0.0, -0.0)\nu = x in {1e999, -1e999, 0.0, 1e999 * 0}\nv = x in {complex(1e999 * 0, 1), 2j}\n", 0),
+                ("w = x in {(1e999 * 0, (1e999 * 0,)), ((1e999 * 0,), 1e999 * 0), -(1e999 * 0)}\n", 0)]
     if w.shard == 0:
         for k, (src, opt) in enumerate(FEATURES):
             try:
